@@ -22,6 +22,7 @@ import ZapVerif.Model.TransMessageX
 import ZapVerif.Model.TransDeriveX
 import ZapVerif.Model.TransCtorX
 import ZapVerif.Model.TransWritersX
+import ZapVerif.Model.TransStackFmtX
 import ZapVerif.Model.Entry
 import ZapVerif.Gen.TransProbe
 /-! `zvdrv CTR`: the interpreter side of the translator's differential test.  An op names a generated table and a
@@ -334,6 +335,7 @@ def derivePar : ZapVerif.TransDerive.Par :=
     werr := fun _ _ _ => [], serr := fun _ => [] }
 
 def tables : List (String × (Env → Ctx)) := [
+  ("TransStackFmt", fun _ => ZapVerif.TransStackFmt.X),
   ("TransDerive", fun _ => ZapVerif.TransDerive.X derivePar),
   ("TransWriters", fun _ => ZapVerif.TransWriters.X writersPar),
   ("TransCtor", fun _ => ZapVerif.TransCtor.X ctorPar),
